@@ -310,10 +310,30 @@ func (h *handler) processUnaryRpc(
 	rpc *goatorepo.Rpc,
 ) *goatorepo.Rpc {
 	ctx, cancel, err := contextFromHeaders(clientCtx, rpc.GetHeader())
-	if err != nil {
-		log.Panic().Err(err).Msg("Server: failed to get context from headers")
-	}
 	defer cancel()
+	if err != nil {
+		// Whatever a peer sends must not take the server down: answer with an
+		// error instead of running the handler.
+		log.Warn().Err(err).Msg("Server: failed to get context from headers")
+		st := status.New(codes.InvalidArgument, "invalid request headers: "+err.Error())
+		respHeader := &goatorepo.RequestHeader{
+			Method:      rpc.GetHeader().GetMethod(),
+			Source:      rpc.GetHeader().GetDestination(),
+			Destination: rpc.GetHeader().GetSource(),
+		}
+		if len(rpc.Header.ProxyRecord) > 1 {
+			respHeader.ProxyNext = rpc.Header.ProxyRecord[0 : len(rpc.Header.ProxyRecord)-1]
+		}
+		return &goatorepo.Rpc{
+			Id:     rpc.GetId(),
+			Header: respHeader,
+			Status: &goatorepo.ResponseStatus{
+				Code:    st.Proto().GetCode(),
+				Message: st.Proto().GetMessage(),
+			},
+			Trailer: &goatorepo.Trailer{},
+		}
+	}
 
 	// The handler's context ends with the connection (read or write failure,
 	// Stop), like those of streaming handlers.
